@@ -1,0 +1,7 @@
+//go:build !verif
+
+package updog
+
+// verifPoint marks a named point of execution for the verification hooks in
+// verif_on.go. Without the "verif" build tag it does nothing.
+func verifPoint(site string) {}
